@@ -26,7 +26,7 @@ ASSUMPTIONS = [
     "An empty batch may raise or return an empty result.",
 ]
 REQUIRED_CLASSES = ["i2s", "s2i", "ilist", "s2f", "f2s2f", "mixed-widths", "near-power-of-ten", "negative", "leading-zeros", "plus-sign",
-                    "scientific", "missing-placeholder", "file-column", "file-column-first-value-narrower-than-widest", "file-column-signed", "int-column-of-a-written-file"]
+                    "scientific", "missing-placeholder", "file-column", "file-column-first-value-narrower-than-widest", "file-column-signed", "int-column-of-a-written-file", "most-negative-value-of-a-narrow-type"]
 BOUNDS = {"quick": "boundary set complete (singly and in 40 mixed batches); 2500 Hypothesis batches per conversion (about 20 000 values each); 1250 numeric-column files, each read whole, reversed, first row alone and without its first row",
           "thorough": "boundary set complete; 60 000 batches per conversion (about 500 000 values each); 30 000 numeric-column files"}
 BUDGET_S = {"quick": 200, "thorough": 1500}
@@ -47,6 +47,8 @@ def classify(case):
     if k in ("i2s", "i2s_file"):
         if k == "i2s_file":
             cl.append("int-column-of-a-written-file")
+        if case.get("narrow") and vals and min(vals) in (-2 ** 7, -2 ** 15, -2 ** 31):
+            cl.append("most-negative-value-of-a-narrow-type")
         widths = {len(str(abs(v))) for v in vals}
         if len(widths) > 1:
             cl.append("mixed-widths")
@@ -175,8 +177,12 @@ def check(case, stats=None):
     try:
         if k == "i2s":
             vals = case["values"]
+            # the narrowest signed type that holds every value of the batch (a column of 8, 16 or 32 bit integers is formatted like a 64 bit one)
+            dt = np.int64
+            if case.get("narrow") and vals:
+                dt = next(t for t in (np.int8, np.int16, np.int32, np.int64) if np.iinfo(t).min <= min(vals) and max(vals) <= np.iinfo(t).max)
             for tag, idx in batches(vals):
-                got = strops.ints_to_strings(np.array([vals[i] for i in idx], dtype=np.int64)).tolist()
+                got = strops.ints_to_strings(np.array([vals[i] for i in idx], dtype=dt)).tolist()
                 want = [str(vals[i]) for i in idx]
                 if got != want:
                     j = next(i for i, (g, w) in enumerate(zip(got, want)) if g != w)
@@ -424,6 +430,11 @@ doubles = st.one_of(st.floats(allow_nan=False, allow_infinity=False, width=64), 
 def batch_case(draw, kind):
     n = draw(st.one_of(st.integers(1, 12), st.integers(2, 12)))
     if kind in ("i2s", "i2s_file"):
+        if kind == "i2s" and draw(st.integers(0, 3)) == 0:
+            # a batch that fits a narrower signed type, its extremes included
+            bits_ = draw(st.sampled_from([8, 16, 32]))
+            lo, hi = -2 ** (bits_ - 1), 2 ** (bits_ - 1) - 1
+            return {"kind": kind, "narrow": True, "values": draw(st.lists(st.one_of(st.sampled_from([lo, hi, lo + 1, 0, -1]), st.integers(lo, hi)), min_size=n, max_size=n))}
         return {"kind": kind, "values": draw(st.lists(ints64, min_size=n, max_size=n))}
     if kind == "s2i":
         return {"kind": kind, "texts": draw(st.lists(int_text(), min_size=n, max_size=n))}
